@@ -14,7 +14,7 @@ WATCHDOG = {"quick": 1200, "thorough": 7200}
 CASES = {"quick": 70, "thorough": 500}
 FLOORS = {
     "quick": {"distinct_nontrivial": 150, "identity_rows": 20000, "direct_rows": 3000,
-              "inequality_rows": 5000, "cases[user-cost]": 20},
+              "inequality_rows": 5000, "cases[user-cost]": 20, "long_series_rows": 8},
     "thorough": {"distinct_nontrivial": 3000, "identity_rows": 400000},
 }
 ANCHORS = [
@@ -113,6 +113,9 @@ def _close(a, b, terms):
 
 
 def exec_case(ctx, r):
+    if r.get("long"):
+        long_series_case(ctx, r)
+        return
     X = np.asarray(r["X"], dtype=float)
     n, p = X.shape
     rng = np.random.default_rng(r["sub_seed"])
@@ -356,10 +359,70 @@ def _direct(ctx, r, X, tol, rng, label):
         ctx.nt(digest(["direct", r["X"]]))
 
 
+def long_series_case(ctx, r):
+    """One very long univariate series (millions of rows): the directly implemented scores must keep
+    agreeing with their cost-based twins where segment-length products leave the int64 range."""
+    from skchange.anomaly_scores import L2Saving
+    from skchange.anomaly_scores.from_cost import Saving
+    from skchange.change_scores import CUSUM
+    from skchange.change_scores.from_cost import ChangeScore
+    from skchange.costs import L2Cost
+
+    n = int(r["n"])
+    rng = np.random.default_rng(r["seed"])
+    X = rng.standard_normal((n, 1))
+    X[n // 2:] += 0.01
+    ctx.case()
+    ctx.stat("long_series_cases")
+    tol = M.DataTol(X)
+    h = n // 2
+    cuts3 = np.array([[0, h, n], [0, h - 250000, n - 500000], [1000, h, n - 1000], [0, 1, n],
+                      [0, n - 1, n], [0, n // 3, n], [h - 10, h, h + 10], [0, 1000, 2000],
+                      [n // 10, h, n], [0, h, n - n // 10]], dtype=np.int64)
+    cuts2 = cuts3[:, [0, 2]]
+    label = f"long series n={n}"
+    try:
+        cus = CUSUM().fit(X).evaluate(cuts3)
+        l2cs = ChangeScore(L2Cost()).fit(X).evaluate(cuts3)
+        sav = L2Saving().fit(X).evaluate(cuts2)
+        sav2 = Saving(L2Cost(param=0.0)).fit(X).evaluate(cuts2)
+    except Exception as ex:
+        ctx.violation("direct-long-series", "exception", f"{label}: {type(ex).__name__}: {ex}", r)
+        return
+    for i in range(len(cuts3)):
+        c = tuple(int(v) for v in cuts3[i])
+        civ = SM.cusum(X, tol, *c)
+        siv = SM.change_from_cost("L2Cost", None, X, tol, *c)
+        ctx.stat("long_series_rows")
+        sq = SM.square_interval(civ)
+        w = (sq[1] - sq[0]) + (siv[1] - siv[0])
+        if not (np.all(np.isfinite(cus[i])) and np.all(cus[i] >= civ[0]) and np.all(cus[i] <= civ[1])):
+            ctx.violation("direct-long-series", "cusum-value", f"{label}: CUSUM{c} = {cus[i].tolist()} outside "
+                          f"model [{civ[0].tolist()}, {civ[1].tolist()}]", r)
+            return
+        if np.any(np.abs(cus[i] ** 2 - l2cs[i]) > w + 1e-300):
+            ctx.violation("direct-long-series", "cusum2-vs-l2", f"{label}: CUSUM^2{c} = {(cus[i] ** 2).tolist()} "
+                          f"!= ChangeScore(L2Cost) = {l2cs[i].tolist()} (width {w.tolist()})", r)
+            return
+        s_, e_ = c[0], c[2]
+        iv = SM.l2_saving(X, tol, s_, e_)
+        iv2 = SM.saving_from_cost("L2Cost", 0.0, X, tol, s_, e_)
+        if not (np.all(sav[i] >= iv[0]) and np.all(sav[i] <= iv[1])) or np.any(
+                np.abs(sav[i] - sav2[i]) > (iv[1] - iv[0]) + (iv2[1] - iv2[0])):
+            ctx.violation("direct-long-series", "l2saving", f"{label}: L2Saving[{s_},{e_}) = {sav[i].tolist()} vs "
+                          f"Saving(L2Cost(0)) = {sav2[i].tolist()}, model [{iv[0].tolist()}, {iv[1].tolist()}]", r)
+            return
+    ctx.nt(digest(["long", r["n"], r["seed"]]))
+
+
 def run(ctx):
     I.install()
     for _ in range(CASES[ctx.tier]):
         exec_case(ctx, make_recipe(ctx.rng, ctx.tier))
+    if ctx.shard == 0:
+        # (e-s)(k-s)(e-k) >= 2**63 needs about 3.4 million rows
+        exec_case(ctx, {"long": True, "n": 4_600_000 + int(ctx.rng.integers(0, 1000)),
+                        "seed": int(ctx.rng.integers(2 ** 31))})
 
 
 def replay(ctx, sub, recipe):
